@@ -12,16 +12,18 @@ ALPHABET = []
 META = dict(
     bounds=dict(
         quick="siphons/traps: 3 species x 2 reactions, every arc weight a symbolic integer >= 0 (presence = weight > 0), "
-              "graph input, plus 3 species x 3 reactions with at most one reactant and one product species per reaction; 3 species x 2 reactions through CRNHyperGraph (coefficients 0..1); firing: 3 places, "
+              "graph input, plus 3 species x 3 reactions with at most one reactant and one product species per reaction; the enumeration / size cut-off / minimality filter of find_siphons and find_traps over 4 species with the per-subset predicate replaced by an arbitrary union-closed symbolic predicate (= any number of reactions); 3 species x 2 reactions through CRNHyperGraph (coefficients 0..1); firing: 3 places, "
               "unbounded symbolic markings and weights; realizability: 3 species x 2 reactions, coefficients 0..1, "
               "flows 0..2, and 2 species x 3 reactions with flows 0..1, also on an analyser object that was used for a variant of the network before",
-        thorough="siphons/traps 3x3 and 4x2 on graph input, 3x3 through the hypergraph; realizability 3 species x 3 "
+        thorough="siphons/traps 3x3 and 4x2 on graph input, 3x3 through the hypergraph; enumeration over an arbitrary union-closed predicate on 5 species (1.4 million families, cut by the wall budget); realizability 3 species x 3 "
                  "reactions, flows 0..2 (sum <= 5)",
     ),
     outside=["siphon_persistence_condition (numpy semiflows)", "Koenig / scaled / borrow realizability variants",
              "networks beyond the bounds; search limits max_states/max_depth are never "
              "reached inside the bounds"],
-    stubs=[],
+    stubs=["enumeration harness only: synkit.CRN.Petri.structure._is_siphon_indices / _is_trap_indices are replaced by a "
+           "symbolic predicate over subsets, assumed closed under union; the real predicates are decided by the "
+           "siphons_graph / siphons_hg harnesses (per reaction, up to 4 species)"],
     assumptions=["siphon/trap harness on graph input: the bipartite DiGraph carries the complete species x reaction arc "
                  "skeleton, an arc of weight 0 counts as absent (the code tests stoich > 0)",
                  "realizability: weights and flows are realised by int(), markings are hashed: solver-driven exhaustion"],
@@ -144,6 +146,59 @@ def h_siphons_hg(E, ns, nr, cmax=1):
             dict(siphons=key(an.siphons), traps=key(an.traps)))
 
 
+def h_enumeration(E, ns, kind):
+    """find_siphons / find_traps as an enumeration procedure: the per-subset predicate (_is_siphon_indices /
+    _is_trap_indices, decided on its own by the siphons_graph harness) is replaced by an arbitrary symbolic predicate over
+    the non-empty subsets of ns species, assumed closed under union (unions of siphons are siphons, the same for traps, and
+    every union-closed family is the siphon family of some net with enough reactions: for a set T outside the family take x
+    in T minus the union U of the members inside T and add the reaction (S minus T) -> x).  The real enumeration,
+    size cut-off and minimality filter run on it; the result must be the inclusion-minimal sets of the predicate."""
+    import networkx as nx
+    import synkit.CRN.Petri.structure as st
+
+    sp = SPECIES[:ns]
+    G = nx.DiGraph()
+    for s in sp:
+        G.add_node("S:" + s, kind="species", bipartite=0, label=s)
+    G.add_node("R:r_1", kind="reaction", bipartite=1, label="r")
+    subs = list(_subsets(ns))
+    P = {T: E.bool("P" + "".join(sp[i] for i in sorted(T))) for T in subs}
+    for T in subs:
+        for U in subs:
+            if not (T <= U or U <= T):
+                E.assume(OR([NOT(P[T]), NOT(P[U]), P[T | U]]))
+    calls = []
+
+    def stub(G_, species_sorted, reaction_nodes, S_idx):
+        calls.append(frozenset(S_idx))
+        if not S_idx:
+            return False
+        return P[frozenset(sp.index(str(species_sorted[i])[2:]) for i in S_idx)]
+
+    name = "_is_siphon_indices" if kind == "siphon" else "_is_trap_indices"
+    find = st.find_siphons if kind == "siphon" else st.find_traps
+    orig = getattr(st, name)
+    setattr(st, name, stub)
+    try:
+        full = find(G)
+        cut = {ms: find(G, max_size=ms) for ms in range(1, ns)}
+    finally:
+        setattr(st, name, orig)
+    minimal = {T: AND([P[T]] + [NOT(P[U]) for U in subs if U < T]) for T in subs}
+    for ms, got in [(None, full)] + sorted(cut.items()):
+        got_sets = [frozenset(sp.index(x) for x in S) for S in got]
+        bad = [len(got_sets) != len(set(got_sets))]
+        for T, f in minimal.items():
+            if ms is not None and len(T) > ms:
+                bad.append(T in got_sets)
+            else:
+                bad.append(NOT(f) if T in got_sets else f)
+        E.check(OR(bad), kind + "s-are-the-minimal-sets-of-the-predicate" + ("-up-to-max-size" if ms else ""),
+                dict(returned=[sorted(S) for S in got], max_size=ms))
+    E.note(nontrivial=bool(full))
+    E.observe(sorted(sorted(S) for S in full))
+
+
 def h_fire(E, npl):
     """PetriNet.enabled / fire with fully symbolic marking and weights."""
     from synkit.CRN.Petri.net import PetriNet
@@ -248,7 +303,7 @@ def h_realizable(E, ns, nr, cmax, fmax, reuse=False):
     E.observe((bool(ok), list(cert) if cert else None))
 
 
-HARNESSES = {"siphons_graph": h_siphons_graph, "siphons_hg": h_siphons_hg, "fire": h_fire, "realizable": h_realizable}
+HARNESSES = {"siphons_graph": h_siphons_graph, "siphons_hg": h_siphons_hg, "enumeration": h_enumeration, "fire": h_fire, "realizable": h_realizable}
 
 
 def shards(tier, seed):
@@ -257,6 +312,8 @@ def shards(tier, seed):
         dict(h="siphons_graph", params=dict(ns=2, nr=2)),
         dict(h="siphons_graph", params=dict(ns=3, nr=3, unimol=True)),
         dict(h="siphons_hg", params=dict(ns=3, nr=2)),
+        dict(h="enumeration", params=dict(ns=4, kind="siphon")),
+        dict(h="enumeration", params=dict(ns=4, kind="trap")),
         dict(h="fire", params=dict(npl=2)),
         dict(h="realizable", params=dict(ns=2, nr=2, cmax=2, fmax=2)),
         dict(h="realizable", params=dict(ns=3, nr=2, cmax=1, fmax=2)),
@@ -270,6 +327,8 @@ def shards(tier, seed):
             dict(h="siphons_graph", params=dict(ns=4, nr=2)),
             dict(h="siphons_graph", params=dict(ns=4, nr=3, unimol=True, sorted_rx=True)),
             dict(h="siphons_hg", params=dict(ns=3, nr=3)),
+            dict(h="enumeration", params=dict(ns=5, kind="siphon")),
+            dict(h="enumeration", params=dict(ns=5, kind="trap")),
             dict(h="fire", params=dict(npl=3)),
             dict(h="realizable", params=dict(ns=3, nr=3, cmax=1, fmax=2)),
         ]
